@@ -139,6 +139,8 @@ def run_scenario(lmtp, pipelining, calls, classes, segmode, seed):
     objs = []
     ehlos = set()
     indata = False
+    txr = []                           # RCPT reply objects (1-based indices) of the current transaction
+    dup = rnd.random() < 0.3           # this scenario names some recipients twice within a transaction
     for m in calls:
         if indata and m not in ('send_data', 'send_empty'):
             m = 'send_data'
@@ -157,7 +159,8 @@ def run_scenario(lmtp, pipelining, calls, classes, segmode, seed):
             elif m == 'mail':
                 ret = cl.mailfrom('s@x')
             elif m == 'rcpt':
-                ret = cl.rcptto('r%d@x' % len(objs))
+                addr_ = objs[rnd.choice(txr) - 1]._verif_addr if (dup and txr and rnd.random() < 0.4) else 'r%d@x' % len(objs)
+                ret = cl.rcptto(addr_)
             elif m == 'data':
                 ret = cl.data()
             elif m == 'send_data':
@@ -182,16 +185,26 @@ def run_scenario(lmtp, pipelining, calls, classes, segmode, seed):
             idx = {id(o): i + 1 for i, o in enumerate(objs)}
             rmap = {a: idx[id(r)] for a, r in getattr(cl, '_verif_rcpts', [])}
             pairs = []
+            used = set()
             for (addr, r) in ret:
-                # the RCPT reply object for this address: addresses are unique per scenario
-                ro = [i + 1 for i, o in enumerate(objs) if getattr(o, '_verif_addr', None) == addr]
+                # the RCPT reply object for this address: the first accepted one of this transaction not yet paired
+                # (an address may be named twice)
+                ro = [i for i in txr if i not in used and getattr(objs[i - 1], '_verif_addr', None) == addr
+                      and (objs[i - 1].code or '')[:1] == '2']
+                if ro:
+                    used.add(ro[0])
                 pairs.append([ro[0] if ro else 0, idx[id(r)]])
+            txr = []
             callrec['objs'] = list(range(before + 1, len(objs) + 1))
             ev.append({'t': 'lmtp_ret', 'pairs': pairs})
         else:
             if m == 'rcpt':
-                ret._verif_addr = 'r%d@x' % len(objs)
+                ret._verif_addr = addr_
             objs.append(ret)
+            if m == 'rcpt':
+                txr.append(len(objs))
+            elif m in ('mail', 'rset', 'hello', 'send_empty', 'send_data'):
+                txr = []
             callrec['objs'] = [len(objs)]
         indata = (m == 'data' and ret.code == '354')
         ev.append({'t': 'snap', 'objs': snap(objs, ehlos)})
